@@ -295,7 +295,7 @@ pers_harness!(c03_o4_retry_after_rollback, c03_o4_retry_after_rollback__witness,
 // ---------------------------------------------------------------------------------------------
 // C03 O3.4 (batch): a failed batch append is all-or-nothing
 // ---------------------------------------------------------------------------------------------
-fn batch_body(witness: bool) {
+fn batch_fault(kind: u8, witness: bool) {
     let mut w = new_writer(FsyncPolicy::Always);
     let e1 = any_entry();
     let r1 = w.append_internal(&e1);
@@ -304,10 +304,7 @@ fn batch_body(witness: bool) {
     assert!(ok1);
     let stable_offset = w.bytes_written;
     let stable_count = w.entry_count;
-    let batch = vec![any_entry()];
-    // fault on the batch: 0 = the only frame is cut after `short` bytes; 1 = frames written, fsync fails
-    let kind: u8 = kani::any();
-    kani::assume(kind < 2);
+    let batch = [any_entry()]; // one-entry batch on the stack (a Vec of entries makes the harness run > 25 min)
     unsafe {
         if kind == 0 {
             vfs::FAULTS.write_fail_at = vfs::COUNTERS.writes;
@@ -321,7 +318,7 @@ fn batch_body(witness: bool) {
     std::mem::forget(r2);
     let st = vfs::state(0);
     if witness {
-        kani::cover!(!ok2 && kind == 1, "batch with failed fsync reported");
+        kani::cover!(!ok2, "failed batch reported");
         std::mem::forget(batch);
         std::mem::forget(w);
         return;
@@ -332,5 +329,12 @@ fn batch_body(witness: bool) {
     std::mem::forget(batch);
     std::mem::forget(w);
 }
+fn batch_fsync_fails(witness: bool) {
+    batch_fault(1, witness);
+}
+fn batch_short_write(witness: bool) {
+    batch_fault(0, witness);
+}
 
-pers_harness!(c03_o4_batch_all_or_nothing, c03_o4_batch_all_or_nothing__witness, batch_body, 50);
+pers_harness!(c03_o4_batch_fsync_fails, c03_o4_batch_fsync_fails__witness, batch_fsync_fails, 50);
+pers_harness!(c03_o4_batch_short_write, c03_o4_batch_short_write__witness, batch_short_write, 50);
